@@ -9,7 +9,7 @@ from ..registry import SPECS, Batch, fresh_cfg, public_cfg, new_metric
 from ..engine import observe, same_obs, obs_json, snapshot, snap_equal, try_update, gen_stream
 
 FAULTS = ["drop_dim", "add_dim", "shorter", "longer", "size1", "empty", "zerodim", "to_bool", "to_int", "to_f64", "to_f16",
-          "neg_label", "big_label", "nan", "inf", "none", "string", "pylist", "missing_arg", "extra_kwarg", "wider_all"]
+          "neg_label", "big_label", "nan", "inf", "none", "string", "pylist", "missing_arg", "extra_kwarg", "wider_all", "ndarray"]
 
 
 def mutate_tensor(t: torch.Tensor, fault: str):
@@ -46,6 +46,10 @@ def mutate_tensor(t: torch.Tensor, fault: str):
             return None
         u = t.clone(); u.reshape(-1)[0] = float("nan") if fault == "nan" else float("inf")
         return u
+    if fault == "ndarray":
+        # an array-like that is not a Tensor but has the right .shape (numpy): passes duck-typed shape checks and fails
+        # at the first tensor method — which must not come after a state write
+        return "NDARRAY"
     if fault == "none":
         return "PYNONE"
     if fault == "string":
@@ -79,6 +83,8 @@ def faulty(b: Batch, fault: str, which: int):
     m = mutate_tensor(args[i], fault)
     if m is None:
         return None
+    if isinstance(m, str) and m == "NDARRAY":
+        m = args[i].detach().cpu().numpy().copy()
     args[i] = None if isinstance(m, str) and m == "PYNONE" else m
     return Batch(tuple(args), dict(b.kwargs))
 
@@ -113,6 +119,9 @@ def case_list(seed: int, tier: str):
 
 def bdesc(b: Batch) -> dict:
     """`Batch.describe()` with python tuples marked (JSON would turn them into lists)"""
+    import numpy as np
+    nd = lambda a: {"__ndarray__": {"shape": list(a.shape), "dtype": str(a.dtype), "data": a.tolist()}}
+    b = Batch(tuple(nd(a) if isinstance(a, np.ndarray) else a for a in b.args), {k: (nd(a) if isinstance(a, np.ndarray) else a) for k, a in b.kwargs.items()})
     d = b.describe()
     d["args"] = [{"__tuple__": list(a)} if isinstance(a, tuple) else a for a in d["args"]]
     d["kwargs"] = {k: ({"__tuple__": list(a)} if isinstance(a, tuple) else a) for k, a in d["kwargs"].items()}
@@ -121,6 +130,10 @@ def bdesc(b: Batch) -> dict:
 
 def bundesc(d: dict) -> Batch:
     def u(a):
+        if isinstance(a, dict) and set(a) == {"__ndarray__"}:
+            import numpy as np
+            x = a["__ndarray__"]
+            return np.array(x["data"], dtype=x["dtype"]).reshape(x["shape"])
         return tuple(a["__tuple__"]) if isinstance(a, dict) and set(a) == {"__tuple__"} else a
     return Batch.from_describe({"args": [u(a) for a in d["args"]], "kwargs": {k: u(a) for k, a in (d.get("kwargs") or {}).items()}})
 
